@@ -12,14 +12,27 @@ import subprocess
 import sys
 import time
 
-RUNS = 60000
+RUNS = 400000
 MAX_TIME_S = 90
 
+
+
+def _seed(base, kind, mask, reads, short, content):
+    """FuzzedDataProvider takes integers from the end of the input and bytes from the front."""
+    ctrl = [base, kind, mask, len(reads) - 1]
+    for v in reads:
+        ctrl += [v >> 8, v & 0xFF]
+    ctrl.append(short)
+    return content + bytes(reversed(ctrl))
+
+
 SEEDS = [
-    b"\x09\x00\x01\x00\x00\x00" + b"q" * 511 + b"\r\nline\r\n",
-    b"\x09\x02\x01\x00\x00\x00" + b"a\r\nb\nc\rd\x00",
-    b"\x00\x00\x03\x05\x00\x07\x00\x01\x00" + bytes(range(256)),
-    b"\x08\x01\x02\xff\x01\x00\x02" + b"\xc8" * 153 + b"a" * 359 + b"\r\n",
+    _seed(9, 0, 0, [0], 0, b"q" * 511 + b"\r\nline\r\n"),
+    _seed(9, 1, 0, [600], 0, b"a\r\nb\nc\rd\x00"),
+    _seed(9, 2, 0, [1500], 0, b"q" * 600 + b"\r\n\x00"),
+    _seed(0, 0, 3, [5, 7, 1], 1, bytes(range(256))),
+    _seed(8, 1, 1, [0, 300], 2, b"\xc8" * 153 + b"a" * 359 + b"\r\n"),
+    _seed(9, 0, 4, [512], 0, b"\xc8" * 154 + b"a" * 358 + b"\r\n"),
 ]
 
 
